@@ -281,19 +281,22 @@ def finding_matches(entry, prop, facts):
         return False
     if prop not in entry.get("properties", [entry.get("property")]):
         return False
-    m = entry.get("match", {})
-    for k, want in m.items():
-        have = facts.get(k)
-        if k.endswith("_in"):
-            if facts.get(k[:-3]) not in want:
+    def one(m):
+        for k, want in m.items():
+            have = facts.get(k)
+            if k.endswith("_in"):
+                if facts.get(k[:-3]) not in want:
+                    return False
+            elif k.endswith("_contains"):
+                v = facts.get(k[:-9])
+                if v is None or want not in v:
+                    return False
+            elif have != want:
                 return False
-        elif k.endswith("_contains"):
-            v = facts.get(k[:-9])
-            if v is None or want not in v:
-                return False
-        elif have != want:
-            return False
-    return True
+        return True
+    # `match`: one description of the failing item; `match_any`: the same defect reached from several call sites
+    alts = ([entry["match"]] if "match" in entry else []) + list(entry.get("match_any", []))
+    return any(one(m) for m in alts) if alts else True
 
 
 class Verdict:
